@@ -31,7 +31,31 @@ func factBefore(st *State, f string, ev *Event) bool {
 			return i < ev.Facts
 		}
 	}
+	// the same comparison written from the other side: a < b for b > a
+	if alt := flipCmpFact(f); alt != "" {
+		for i, g := range st.facts {
+			if g == alt {
+				return i < ev.Facts
+			}
+		}
+	}
 	return false
+}
+
+var cmpFactShape = regexp.MustCompile(`^([+-])(Gt0|Lt0|Eq0)\((.*)\)$`)
+
+// flipCmpFact: ±Gt0(L) ⇔ ±Lt0(−L), ±Eq0(L) ⇔ ±Eq0(−L). Empty when f is not such a fact or L is not registered.
+func flipCmpFact(f string) string {
+	mm := cmpFactShape.FindStringSubmatch(f)
+	if mm == nil {
+		return ""
+	}
+	l, ok := linByStr[mm[3]]
+	if !ok {
+		return ""
+	}
+	op := map[string]string{"Gt0": "Lt0", "Lt0": "Gt0", "Eq0": "Eq0"}[mm[2]]
+	return mm[1] + op + "(" + regLin(l.Neg()) + ")"
 }
 
 func anyFactBefore(st *State, ev *Event, fs ...string) (string, bool) {
